@@ -97,8 +97,32 @@ func TestJudgeSelfCheck(t *testing.T) {
 			rq(2, 0, 2, nil, "fault", n),
 			rq(3, 1, 0, []ack{{1, 1}}, "keepalive", n, good)}, nil, ""},
 	}
+	// a response whose successor arrived late may have been given up by the client
+	slow := []*capReq{
+		rq(0, 0, 0, nil, "data", ack{1, 1}),
+		rq(1, 0, 1, nil, "keepalive", n),
+		rq(2, 0, 2, nil, "keepalive", n)}
+	slow[1].atMs, slow[2].atMs = 2300, 2310
+	if got := judgeAcks(slow, nil, nil, nil, 1000); got != "" {
+		t.Errorf("slow successor: the oracle rejects a history it must accept: %s", got)
+	}
+	slow[1].atMs, slow[2].atMs = 30, 40
+	if got := judgeAcks(slow, nil, nil, nil, 1000); !strings.HasPrefix(got, "(iii)") {
+		t.Errorf("fast successor: want a violation of clause (iii), got %q", got)
+	}
+	// a notification of a subscription whose Subscribe call had not returned when the request arrived
+	early := []*capReq{
+		rq(0, 0, 0, nil, "data", ack{2, 1}),
+		rq(1, 0, 1, nil, "keepalive", n),
+		rq(2, 0, 2, nil, "keepalive", n)}
+	if got := judgeAcks(early, nil, nil, map[uint32]pos{2: {0, 1}}, 0); got != "" {
+		t.Errorf("early notification: the oracle rejects a history it must accept: %s", got)
+	}
+	if got := judgeAcks(early, nil, nil, map[uint32]pos{2: {0, 0}}, 0); !strings.HasPrefix(got, "(iii)") {
+		t.Errorf("known subscription: want a violation of clause (iii), got %q", got)
+	}
 	for _, c := range cases {
-		got := judgeAcks(c.reqs, c.deleted)
+		got := judgeAcks(c.reqs, c.deleted, nil, nil, 0)
 		switch {
 		case c.want == "" && got != "":
 			t.Errorf("%s: the oracle rejects a history it must accept: %s", c.name, got)
